@@ -377,8 +377,10 @@ def run_check(pid, tier, base_seed=None, n_runs=None, workers=None, budget_s=Non
         for h in harness_errors[:10]:
             print('HARNESS-ERROR %s' % h)
         return 2
-    if ok_results and aborted * 50 > len(ok_results):
-        print('HARNESS-ERROR more than 2%% of runs aborted (%d of %d)' % (aborted, len(ok_results)))
+    if ok_results and aborted * 10 > len(ok_results):
+        # an aborted run (back-pressure cap or per-run wall clock) is neither a pass nor a violation; a few
+        # are expected and reported in the evidence, many mean that the batch explored too little
+        print('HARNESS-ERROR more than 10%% of runs aborted (%d of %d)' % (aborted, len(ok_results)))
         return 2
     if not ok_results:
         print('HARNESS-ERROR no run completed')
